@@ -9,6 +9,7 @@ Mon(r) == /\ r.co \in {0, 1} /\ r.so \in {0, 1}
           /\ r.a[2] <= K * r.n + K0
           /\ r.a[3] <= 4 * (K * r.n + K0)
           /\ r.sa = 0
+          /\ r.ca <= K * r.n + K0      \* collect() of the event iterator (one bool per event) is steered by its size_hint
 
 \* ---- batch judge loop (generated boilerplate, see bin/vf) ---------------
 Recs == ndJsonDeserialize(IOEnv.VF_TRACE)
